@@ -1,4 +1,5 @@
 """pypyr pipeline yaml definition classes - domain specific language."""
+import copy
 import json
 import logging
 
@@ -694,7 +695,9 @@ class Step:
                     "Updating context with %s 'in' parameters.",
                     parameter_count,
                 )
-                context.update(self.in_parameters)
+                # copy, so a step that mutates its arguments in place can't
+                # alter the cached pipeline definition shared between runs.
+                context.update(copy.deepcopy(self.in_parameters))
 
         logger.debug("done")
 
